@@ -16,3 +16,8 @@ pub use grammar::{
 };
 pub use parser::{BiasComputer, Parser, ParserError, ParserMetrics, ParserRecognizer, ParserStats};
 pub use slicer::SlicedBiasComputer;
+
+#[cfg(llg_verif)]
+pub use from_guidance::VERIF_SKIP_OPTIMIZE;
+#[cfg(llg_verif)]
+pub use grammar::{VerifRule, VerifSymbol};
